@@ -401,7 +401,8 @@ def big_table(n_atoms, n_chains=3, n_models=1):
 def _model_numbers():
     from hypothesis import strategies as st
 
-    return st.sampled_from([None, None, None, [3, 1, 2], [2, 1, 3], [7, 2, 5], [10, 20, 30], [1, 3, 2], [5], [0, 1, 2]])
+    return st.sampled_from([None, None, None, [3, 1, 2], [2, 1, 3], [7, 2, 5], [10, 20, 30], [1, 3, 2], [5], [0, 1, 2],
+                            [300, 301, 302], [256, 257, 258], [998, 999, 1000], [9997, 9998, 9999]])
 
 
 def st_cases():
